@@ -55,6 +55,7 @@ def collect_sites(tree, fb):
     of the loops whose body contains the site; conds = [(condition expr, label, case values)] on the way."""
     sites = []
     switches = {}
+    iters = {}       # (header, frame) -> {"l": local, "var": var, "finals": [value of the iterator at each back edge]}
 
     def walk(nodes, active, pending, choices, conds):
         pending = dict(pending)
@@ -67,6 +68,7 @@ def collect_sites(tree, fb):
                     t = fb.facts.types[ty] if ty is not None else None
                     if t is not None and t["k"] == "adt" and t["path"] == "owlchess_base::bitboard::Iter":
                         pending[(n[1], n[4] if len(n) > 4 else None)] = (var, pre)
+                        iters[(n[1], n[4] if len(n) > 4 else None)] = {"l": l, "var": var, "finals": []}
             elif k == "switch":
                 switches[n[5]] = (n[1], tuple(n[2].keys()), n[4])
                 for lab, sub in n[2].items():
@@ -96,6 +98,10 @@ def collect_sites(tree, fb):
                     walk(sub, act, pend, ch, conds + [(n[1], lab, n[4])])
             elif k == "inlined":
                 walk(n[3], active, pending, choices, conds)
+            elif k == "backedge":
+                key = (n[1], n[4] if len(n) > 4 else None)
+                if key in iters and iters[key]["l"] in n[3]:
+                    iters[key]["finals"].append(simplify_variants(resolve_phi(n[3][iters[key]["l"]], choices)))
             elif k == "call" and n[2] == ADD:
                 args = n[3]
                 vals = [simplify_variants(resolve_phi(a, choices)) for a in args]
@@ -105,6 +111,7 @@ def collect_sites(tree, fb):
     walk(tree, [], {}, {}, [])
     for st in sites:
         st["switches"] = switches
+        st["iters"] = iters
         prepare(st)
     return sites
 
@@ -374,7 +381,7 @@ def site_emits(facts, site, S, D, board):
 
 
 def emitter_rule(ctx, facts, rid):
-    r = ctx.rule(rid, "the semilegal generator emits the move S->D of a (kind, piece) exactly when the rules allow it: per-site set algebra "
+    r = ctx.rule(rid, "the semilegal generator emits the move S->D of a (kind, piece) exactly when the rules allow it, from exactly one site: per-site set algebra "
                       "of the iterated bitboards against the semilegality reference, all 64x64 square pairs, abstract boards, both colours")
     total = 0
     for C, col in ((WHITE, "White"), (BLACK, "Black")):
@@ -398,9 +405,31 @@ def emitter_rule(ctx, facts, rid):
             continue
         r.floor(len(sites), 20, "add_move sites in gen::<%s>" % col)
         # every loop iterates the set bits of its expression: item = trailing_zeros(iter), iter' = iter & (iter - 1)
+        checked = set()
         for s in sites:
-            for (_b, var, _pre) in s["loops"]:
-                pass
+            for (bkey, var, _pre) in s["loops"]:
+                if bkey in checked:
+                    continue
+                checked.add(bkey)
+                info = s["iters"].get(bkey)
+                v = strip(var)
+                okit = bool(info and info["finals"])
+                for fin in (info["finals"] if info else ()):
+                    f_ = strip(fin)
+                    want1 = ("bin", "BitAnd", ("call", "core::num::<impl u64>::wrapping_sub", (v, ("const", 1, "u64"))), v)
+                    want2 = ("bin", "BitAnd", v, ("call", "core::num::<impl u64>::wrapping_sub", (v, ("const", 1, "u64"))))
+                    if f_ not in (want1, want2):
+                        okit = False
+                if not okit:
+                    bad = "a generator loop does not step its bitboard iterator by clearing the lowest set bit (each square exactly once): %s" % (
+                        show(strip(info["finals"][0]))[:100] if info and info["finals"] else "no back edge value")
+                    break
+            if bad:
+                break
+        if bad:
+            r.fail("emit/%s/iterator" % col, bad, site=ctx.site(fn))
+            continue
+        r.ok("emit/%s/iterator: %d loops step by clearing the lowest set bit; the item is its index" % (col, len(checked)))
         fwd = -8 if C == WHITE else 8
         for kind in (1, 4, 5, 6, 7, 8, 9):
             for piece in range(6):
@@ -440,7 +469,10 @@ def emitter_rule(ctx, facts, rid):
                                 continue        # ... and the square that pawn passed over is empty (validation clears the mark otherwise, C11/V2)
                             want = wf and sc["board_src"] == c and _ref_semilegal(C, kind, c, S, D, sc)
                             try:
-                                got = any(site_emits(facts, st, S, D, board) for st in ss)
+                                cnt = sum(1 for st in ss if site_emits(facts, st, S, D, board))
+                                got = cnt > 0
+                                if cnt > 1:
+                                    got = "emitted by %d sites (a duplicate in the move list)" % cnt
                             except Unknown as e:
                                 got = "not evaluable: %s" % (e,)
                             n_pts += 1
